@@ -563,6 +563,7 @@ def correspondence(ctx):
             ctx.agree(op, (spec.key(), backend, f32, len(shp), op))
     for op, line in list(zip(ops, out))[:3]:
         ctx.sample({'op': op[:160], 'model': line[:120]})
+    abk_tie(ctx, rng)
     ctx.extra['worst_error_over_tolerance'] = {k: round(v, 6) for k, v in sorted(worst.items())}
     ctx.extra['tolerance'] = f'rel. (to max(1,|value|)) <= {TOL64} for float64 parameters, {TOL32} for float32 parameters'
     ctx.extra['exhaustive'] = False
@@ -836,12 +837,117 @@ def probe_compose(ctx, rng):
                 ctx.agree(op, ('compose', op))
 
 
+# ---------------------------------------------------------------------------
+# _ABk.py: symmetric-extension Hermitian manifolds — pure index bookkeeping, exact tie on integer parameters
+# ---------------------------------------------------------------------------
+def _ints(a):
+    return ';'.join(str(int(x)) for x in np.asarray(a).reshape(-1)) or '-'
+
+
+def _gints(z):
+    z = np.asarray(z).reshape(-1)
+    return ';'.join(f'{int(round(v.real))},{int(round(v.imag))}' for v in z)
+
+
+def abk_cases(ctx):
+    cases = [(1, 2, 1), (2, 2, 1), (2, 2, 2), (1, 2, 3), (2, 3, 2), (3, 2, 2), (2, 2, 3)]
+    if not ctx.quick():
+        cases += [(1, 3, 3), (3, 3, 2), (2, 2, 4), (1, 2, 4), (3, 2, 3)]
+    return cases
+
+
+def abk_tie(ctx, rng):
+    import torch, numqi
+    A = numqi.manifold._ABk
+    ops, expect = [], []
+    for dimA, dimB, kext in abk_cases(ctx):
+        N = dimA * dimB ** kext
+        d = dimA * dimB
+        for dt in (torch.float64, torch.float32):
+            m = numqi.manifold.ABkHermitian(dimA, dimB, kext, dtype=dt)
+            with torch.no_grad():
+                m.theta_sym.data = torch.tensor(rng.integers(-9, 10, size=m.theta_sym.shape), dtype=dt)
+                m.theta_skew_sym.data = torch.tensor(rng.integers(-9, 10, size=m.theta_skew_sym.shape), dtype=dt)
+                out = to_np(m())
+            ops.append(f'C01 abkh {N} {_ints(to_np(m.index_sym))} {_ints(to_np(m.index_skew))} {_ints(to_np(m.factor_skew))} '
+                       f'{_ints(to_np(m.theta_sym))} {_ints(to_np(m.theta_skew_sym))}')
+            expect.append(_gints(out))
+            m2 = numqi.manifold.ABk2localHermitian(dimA, dimB, kext, dtype=dt)
+            with torch.no_grad():
+                m2.matAB_real.data = torch.tensor(rng.integers(-9, 10, size=(d, d)), dtype=dt)
+                out2 = to_np(m2())
+            ops.append(f'C01 abk2 {d} {N} {_ints(to_np(m2.coeff_sym))} {_ints(to_np(m2.index_sym))} {_ints(to_np(m2.coeff_skew_sym))} '
+                       f'{_ints(to_np(m2.index_skew_sym))} {_ints(to_np(m2.matAB_real))}')
+            expect.append(_gints(out2))
+        mat = np.arange(N * N, dtype=np.int64).reshape(N, N)
+        for i in range(kext):
+            for j in range(i + 1, kext):
+                P = A.ABk_permutate(mat, i, j, dimA, dimB, kext)
+                ops.append(f'C01 abkperm {dimA} {dimB} {kext} {i} {j}')
+                # ret[r,c] = mat[pi r, pi c]: the row permutation is read off the first column, and must explain the whole matrix
+                pi = P[:, 0] // N
+                expect.append(_ints(pi) if np.array_equal(P, mat[np.ix_(pi, pi)]) else 'not-a-simultaneous-row-column-permutation')
+    out = common.run_model(ops)
+    for op, e, line in zip(ops, expect, out):
+        ctx.count('abk-' + op.split(' ')[1])
+        if e == line:
+            ctx.agree(op[:300], ('abk', op[:300]))
+        else:
+            ctx.disagree(op[:1500], line[:400], e[:400])
+
+
+def abk_probe(ctx, rng):
+    """ABkHermitian: Hermitian and invariant under every exchange of two B copies; ABk2localHermitian: Hermitian and equal to the sum over the
+    B copies of H_AB (to_AB) embedded; plus the table hypotheses of the Lean theorems, checked exactly on the live tables"""
+    import torch, numqi
+    A = numqi.manifold._ABk
+    for dimA, dimB, kext in abk_cases(ctx):
+        N = dimA * dimB ** kext
+        desc = f'({dimA},{dimB},{kext})'
+        pairs = [(i, j) for i in range(kext) for j in range(i + 1, kext)]
+        m = numqi.manifold.ABkHermitian(dimA, dimB, kext)
+        H = to_np(m())
+        isym, iskew, fac = to_np(m.index_sym), to_np(m.index_skew), to_np(m.factor_skew)
+        rp = dict(module=f'ABkHermitian{desc}', theta_sym=to_np(m.theta_sym).tolist(), theta_skew_sym=to_np(m.theta_skew_sym).tolist())
+        if np.abs(H - H.conj().T).max() > 0:
+            ctx.fail('abk:hermitian', f'ABkHermitian{desc}() is not Hermitian (|H-H^H| = {np.abs(H - H.conj().T).max():.3e})', rp)
+        else:
+            ctx.probe_ok(('abkh', desc))
+        for i, j in pairs:
+            if np.abs(H - A.ABk_permutate(H, i, j, dimA, dimB, kext)).max() > 0:
+                ctx.fail('abk:permutation-invariant', f'ABkHermitian{desc}() changes under the exchange of B copies {i},{j}', rp)
+            else:
+                ctx.probe_ok()
+        hyp = (np.array_equal(isym, isym.T) and np.array_equal(iskew, iskew.T) and np.array_equal(fac, -fac.T)
+               and all(np.array_equal(t, A.ABk_permutate(t, i, j, dimA, dimB, kext)) for t in (isym, iskew, fac) for i, j in pairs))
+        if not hyp:
+            ctx.fail('abk:table-hypotheses', f'get_ABk_symmetry_index{desc}: tables are not (anti)symmetric / permutation invariant (hypotheses of abkHermitian_hermitian)', dict(dimA=dimA, dimB=dimB, kext=kext))
+        else:
+            ctx.probe_ok()
+        m2 = numqi.manifold.ABk2localHermitian(dimA, dimB, kext)
+        H2 = to_np(m2())
+        HAB = m2.to_AB()
+        rp = dict(module=f'ABk2localHermitian{desc}', matAB_real=to_np(m2.matAB_real).tolist())
+        t0 = np.kron(HAB, np.eye(dimB ** (kext - 1)))
+        want = t0 + sum(A.ABk_permutate(t0, 0, x, dimA, dimB, kext) for x in range(1, kext))
+        if np.abs(H2 - H2.conj().T).max() > 1e-12 or np.abs(H2 - want).max() > 1e-10:
+            ctx.fail('abk2local:sum-of-embeddings', f'ABk2localHermitian{desc}(): |H-H^H| = {np.abs(H2 - H2.conj().T).max():.2e}, |H - sum_i H_AB(i)| = {np.abs(H2 - want).max():.2e}', rp)
+        else:
+            ctx.probe_ok(('abk2', desc))
+        cS, iS, cK, iK = (to_np(x) for x in (m2.coeff_sym, m2.index_sym, m2.coeff_skew_sym, m2.index_skew_sym))
+        if not (np.array_equal(cS[iS], cS[iS.T]) and np.array_equal(cK[iK], -cK[iK.T])):
+            ctx.fail('abk2local:table-hypotheses', f'ABk_2local_*_symmetry_index{desc}: coefficient rows not (anti)symmetric under transposition (hypotheses of abk2local_hermitian)', dict(dimA=dimA, dimB=dimB, kext=kext))
+        else:
+            ctx.probe_ok()
+
+
 def probe(ctx):
     rng = np.random.default_rng(ctx.np_seed + 17)
     probe_constraints(ctx, rng)
     probe_modules(ctx, rng)
     probe_compose(ctx, rng)
-    ctx.extra['statements_not_proved'] = ['Numqi.C01.soExp_complex_det_one.Statement (det(exp A)=1 for traceless skew-Hermitian A: needs det∘exp = exp∘tr, absent from Mathlib; proved fragment soExp_complex_det_one_partial: |det| = 1; det=1 is probed numerically)']
+    abk_probe(ctx, rng)
+    ctx.extra['statements_not_proved'] = []
     ctx.extra['probe_tolerance'] = f'constraints: {PROBE64} (float64), {PROBE32} (float32); exp/cayley unitarity scaled by max(1,|theta|_max*dim/10)*order'
     ctx.assumptions.append('to_stiefel_euler asserts theta.ndim <= 2: the (k,l) batch shape is excluded for that map (the guard itself is tied)')
     ctx.assumptions.append('inputs of stiefel polar/qr/choleskyL are restricted to pre-factor matrices with condition number <= 1e3 (<= 20 for float32 parameters): the orthonormalisation error of LAPACK grows with cond^2*eps')
